@@ -649,13 +649,99 @@ func (t *tables) parsed(c blockrelay.ExecutionConfigurator) (res string) {
 	return None()
 }
 
-func (t *tables) outcome(pc *beaconblockproposer.ProposerConfig) string {
-	var rs []string
-	for _, r := range pc.Relays {
-		rs = append(rs, Record("rc_addr", N(t.relay(r.Address)), "rc_pk", t.optKey(r.PublicKey), "rc_fee", t.bytesN(r.FeeRecipient[:]),
-			"rc_gas", N(r.GasLimit), "rc_grace", durN(r.Grace.Nanoseconds()), "rc_min", decTerm(r.MinValue)))
+type relayOut struct {
+	id   uint64
+	term string
+}
+
+// outcomeTerm prints (OOk (Build_prop_cfg fee [Build_relay_cfg addr pk fee gas grace min; ...])) with the
+// relays sorted by address number (the implementation's order is Go map order; Check.C10 sorts too).
+func outcomeTerm(fee string, rs []relayOut) string {
+	sort.SliceStable(rs, func(i, j int) bool { return rs[i].id < rs[j].id })
+	terms := make([]string, len(rs))
+	for i, r := range rs {
+		terms[i] = r.term
 	}
-	return App("OOk", Record("pc_fee", t.bytesN(pc.FeeRecipient[:]), "pc_relays", List(rs)))
+	return App("OOk", App("Build_prop_cfg", fee, List(terms)))
+}
+
+func (t *tables) outcome(pc *beaconblockproposer.ProposerConfig) string {
+	var rs []relayOut
+	for _, r := range pc.Relays {
+		id := t.relay(r.Address)
+		rs = append(rs, relayOut{id, App("Build_relay_cfg", N(id), t.optKey(r.PublicKey), t.bytesN(r.FeeRecipient[:]),
+			N(r.GasLimit), durN(r.Grace.Nanoseconds()), decTerm(r.MinValue))})
+	}
+	return outcomeTerm(t.bytesN(pc.FeeRecipient[:]), rs)
+}
+
+// shown decodes the JSON that --proposer-config-check prints (ProposerConfig.MarshalJSON) back into
+// an outcome, with the same leaf codecs as the documents.
+func (t *tables) shown(pc *beaconblockproposer.ProposerConfig) (res string) {
+	defer func() {
+		if r := recover(); r != nil {
+			res = "OPanic"
+		}
+	}()
+	data, err := pc.MarshalJSON()
+	if err != nil {
+		return "OErr"
+	}
+	var out struct {
+		FeeRecipient string `json:"fee_recipient"`
+		Relays       []struct {
+			Address      string `json:"address"`
+			PublicKey    string `json:"public_key"`
+			FeeRecipient string `json:"fee_recipient"`
+			GasLimit     string `json:"gas_limit"`
+			Grace        string `json:"grace"`
+			MinValue     string `json:"min_value"`
+		} `json:"relays"`
+	}
+	if err := json.Unmarshal(data, &out); err != nil {
+		return "OErr"
+	}
+	fee, ok := hexBytes(out.FeeRecipient, 20)
+	if !ok {
+		return "OErr"
+	}
+	var rs []relayOut
+	for _, r := range out.Relays {
+		id := t.relay(r.Address)
+		pk := None()
+		if r.PublicKey != "" {
+			b, ok := hexBytes(r.PublicKey, 48)
+			if !ok {
+				return "OErr"
+			}
+			pk = Some(t.bytesN(b))
+		}
+		rfee, ok := hexBytes(r.FeeRecipient, 20)
+		if !ok {
+			return "OErr"
+		}
+		gas, err := strconv.ParseUint(r.GasLimit, 10, 64)
+		if err != nil {
+			return "OErr"
+		}
+		grace := new(big.Int)
+		if r.Grace != "" {
+			if _, ok := grace.SetString(r.Grace, 10); !ok || grace.Sign() < 0 {
+				return "OErr"
+			}
+			grace.Mul(grace, big.NewInt(1000000))
+		}
+		minValue := decimal.Zero
+		if r.MinValue != "" {
+			minValue, err = decimal.NewFromString(r.MinValue)
+			if err != nil || minValue.Sign() < 0 {
+				return "OErr"
+			}
+			minValue = minValue.Shift(18)
+		}
+		rs = append(rs, relayOut{id, App("Build_relay_cfg", N(id), pk, t.bytesN(rfee), N(gas), BigN(grace), decTerm(minValue))})
+	}
+	return outcomeTerm(t.bytesN(fee), rs)
 }
 
 // ---------------------------------------------------------------------------------------------
@@ -665,6 +751,7 @@ type observed struct {
 	OK1        bool     `json:"unmarshal_ok"`
 	Err1       string   `json:"unmarshal_error,omitempty"`
 	Out1       []string `json:"lookups"`
+	Shown      []string `json:"shown_by_proposer_config_check"`
 	Marshalled string   `json:"marshalled,omitempty"`
 	OK2        bool     `json:"unmarshal_again_ok"`
 	Err2       string   `json:"unmarshal_again_error,omitempty"`
@@ -690,10 +777,10 @@ func marshalSafe(c blockrelay.ExecutionConfigurator) (data []byte, err error) {
 	return json.Marshal(c)
 }
 
-func (t *tables) lookupSafe(c blockrelay.ExecutionConfigurator, v Validator, fee bellatrix.ExecutionAddress, gas uint64, nt *bool) (res string) {
+func (t *tables) lookupSafe(c blockrelay.ExecutionConfigurator, v Validator, fee bellatrix.ExecutionAddress, gas uint64, nt *bool) (res, shown string) {
 	defer func() {
 		if r := recover(); r != nil {
-			res = "OPanic"
+			res, shown = "OPanic", "OPanic"
 		}
 	}()
 	var pk phase0.BLSPubKey
@@ -702,15 +789,15 @@ func (t *tables) lookupSafe(c blockrelay.ExecutionConfigurator, v Validator, fee
 	}
 	pc, err := c.ProposerConfig(context.Background(), v.account(), pk, fee, gas)
 	if err != nil {
-		return "OErr"
+		return "OErr", "OErr"
 	}
 	if pc == nil {
-		return "OPanic"
+		return "OPanic", "OPanic"
 	}
 	if len(pc.Relays) > 0 || !bytes.Equal(pc.FeeRecipient[:], fee[:]) {
 		*nt = true
 	}
-	return t.outcome(pc)
+	return t.outcome(pc), t.shown(pc)
 }
 
 func run(in Input, id uint64) (term string, obs observed) {
@@ -730,7 +817,9 @@ func run(in Input, id uint64) (term string, obs observed) {
 	if obs.OK1 {
 		parsed = t.parsed(c1)
 		for _, v := range in.Validators {
-			obs.Out1 = append(obs.Out1, t.lookupSafe(c1, v, fee, in.FallbackGas, &obs.nontrivial))
+			o, sh := t.lookupSafe(c1, v, fee, in.FallbackGas, &obs.nontrivial)
+			obs.Out1 = append(obs.Out1, o)
+			obs.Shown = append(obs.Shown, sh)
 		}
 		data, err := marshalSafe(c1)
 		if err == nil {
@@ -744,7 +833,8 @@ func run(in Input, id uint64) (term string, obs observed) {
 			if obs.OK2 {
 				var dummy bool
 				for _, v := range in.Validators {
-					obs.Out2 = append(obs.Out2, t.lookupSafe(c2, v, fee, in.FallbackGas, &dummy))
+					o, _ := t.lookupSafe(c2, v, fee, in.FallbackGas, &dummy)
+					obs.Out2 = append(obs.Out2, o)
 				}
 			}
 		} else {
@@ -772,15 +862,25 @@ func run(in Input, id uint64) (term string, obs observed) {
 		}
 		vals = append(vals, Record("v_key", key, "v_accts", List(strs)))
 	}
-	term = Record("c_id", N(id), "c_doc", doc, "c_fbfee", t.bytesN(fee[:]), "c_fbgas", N(in.FallbackGas),
-		"c_vals", List(vals), "c_ok1", Bool(obs.OK1), "c_parsed", parsed, "c_out1", List(obs.Out1),
-		"c_marshalled", marshalled, "c_ok2", Bool(obs.OK2), "c_out2", List(obs.Out2))
+	// identical output lists are printed once and shared (they are elaborated once by coqc)
+	out1, shown, out2 := List(obs.Out1), List(obs.Shown), List(obs.Out2)
+	shownRef, out2Ref := shown, out2
+	if shown == out1 {
+		shownRef = "o1"
+	}
+	if out2 == out1 {
+		out2Ref = "o1"
+	}
+	term = "(let o1 := " + out1 + " in " + Record("c_id", N(id), "c_doc", doc, "c_fbfee", t.bytesN(fee[:]), "c_fbgas", N(in.FallbackGas),
+		"c_vals", List(vals), "c_ok1", Bool(obs.OK1), "c_parsed", parsed, "c_out1", "o1", "c_shown", shownRef,
+		"c_marshalled", marshalled, "c_ok2", Bool(obs.OK2), "c_out2", out2Ref) + ")"
 	return term, obs
 }
 
 func TestC10(t *testing.T) {
 	col := NewCollector("C10", "Check.C10",
 		"execution-config documents (v2: 0-4 relays, 0-4 proposer entries with every presence pattern of fee/gas/grace/min/public key at the four levels, overlapping key and account selectors, reset/disabled/new relays; legacy v1; a malformed stream), each looked up for 4-7 validators, marshalled, unmarshalled and looked up again; non-trivial = the document is accepted and some validator gets a relay or a fee recipient other than the fallback; distinct by document + validators")
+	col.ShardSize = 150
 	n := EnvInt("VERIF_N", 1000)
 	var ins []Input
 	for _, in := range LoadInputs[Input]("C10") {
